@@ -84,14 +84,16 @@ the failing build of a history carries 2-3 faults and runs with -j1 -k N, N in {
 what it needs -- up to the finish of the N-th failing command, then the rest in manifest order.  Compared: accept; failed
 (exit status); failed-edge: the SET of failed statements; run-set: the commands started; dependents: nothing that depends on a
 failed statement was started; not-recorded; budget: at most N failures and no start after the N-th (engine events); the state
-rules; then the following builds.  buildFK sits on the re-scanning loop (dirty_now): these graphs get no input-less phony
-statement (an input-less phony statement is given a source input).
+rules; then the following builds.  The loop that is run is HistFailKFaithful.buildFK_f, with buildFK next to it (old=).
 
 DYNDEP (coq/Engine/HistDyndepDefs.v ybuild_f, theorems in Properties_C11hist.v; dyn=True, props/c11.py): graphs with a dyndep
 file (engine.add_dyndep: a source, or produced by a statement; bound at rule or build level; the file adds implicit inputs,
 implicit outputs, restat), fixed over the history.  The model line carries the manifest WITHOUT the dyndep information and the
-ground truth of the file (Y=); `hist_run histy`; a dyndep file has a fixed content on both sides.  A Build is ybuild_f
-(CleanNode-faithful); ybuild is run next to it (old=).  Compared with the exact rules: accepted / refused (a missing source
+ground truth of the file (Y=); `hist_run histy`; a dyndep file has a fixed content on both sides.  A Build is
+HistDyndepFaithful.ybuild_ff (CleanNode + Plan::DyndepsLoaded / RefreshDyndepDependents followed literally; a FAILING mid-build
+load leaves the producer's outputs written and unlogged, as Builder::FinishCommand does); ybuild_f and ybuild are run next to
+it (old=, old2=).  ybuild_ff does not model validations met by the re-scan nor a statement first visited by the re-scan that is
+bound to ANOTHER pending dyndep file: the generator has no validations and one dyndep file per graph.  Compared with the exact rules: accepted / refused (a missing source
 dyndep file: "loading ...") / FAILED mid-build (a load made the re-scan fail: non-zero exit after commands were started; the
 states are compared as they are), run set, order (also after the dyndep file's producer and the producers of dyndep-added
 inputs), exists / clean (the clean build of the inlined graph, engine.py clean_contents) / log / times also for the
@@ -167,12 +169,10 @@ def run_model(lines, chunk=None, mode='hist'):
     return res
 
 # ------------------------------------------------------------------ generation (inside the fragment)
-def strip_graph(g, rnd=None, no_inputless_phony=False):
-    """what gen_graph adds regardless of the feature table and the model does not have.  no_inputless_phony: for the -k N model
-    (HistFailKDefs.buildFK), which sits on the re-scanning loop (dirty_now): an input-less phony statement gets a source input"""
+def strip_graph(g, rnd=None):
+    """what gen_graph adds regardless of the feature table and the model does not have"""
     for e in g.edges:
         e.pool = ''            # the console pool (scheduling only)
-        if no_inputless_phony and e.phony and not e.manifest_ins(): e.exp = [rnd.choice(sorted(g.sources))]
     return g
 
 GARBAGE_BASE = 10 ** 9        # model contents written by failing commands: GARBAGE_BASE + 1000 * k + node
@@ -200,7 +200,7 @@ def gen_history(rnd, sid, outside=False, dry=0.0, fault=False, deps=False, par=F
     if deps: feat['deps'] = 0.6; wf_reads = rnd.random() < 0.75
     if dyn: feat['dyndep'] = 1.0
     g = strip_graph(engine.gen_graph(rnd, rnd.randrange(3, 13) if par else (rnd.randrange(3, 11) if fault == 'k' else rnd.randrange(2, 10)), feat, wf_reads),
-                    rnd, no_inputless_phony=(fault == 'k'))
+                    rnd)
     if deps: gcc_only(g, keep_depfile=(deps == 'depfile'))
     h = ec.Hist(sid, g)
     h.deps_mode = bool(deps); h.depfile_mode = (deps == 'depfile'); h.dyn_mode = bool(dyn); h.wf_reads = wf_reads; h.par_mode = bool(par)
@@ -651,6 +651,7 @@ def parse_model(out, m):
         raw = kv.get('run', kv.get('list', '-'))
         raw = [] if raw == '-' else [int(x) for x in raw.split('+')]
         bf = kv.get('bf'); bf = None if bf is None else ([] if bf == '-' else [m.order[int(x)] for x in bf.split('+')])
+        old2 = kv.get('old2'); old2 = None if old2 is None else ([] if old2 == '-' else [m.order[int(x)] for x in old2.split('+')])
         old = kv.get('old'); old = None if old is None else ([] if old == '-' else [m.order[int(x)] for x in old.split('+')])
         df = None
         if 'df' in kv:
@@ -660,7 +661,7 @@ def parse_model(out, m):
         builds.append(dict(what=bl.split()[0], df=df, ok=kv['ok'] == '1', raw=raw, run=[m.order[x] for x in raw], nodes=nodes, old=old, oldok=kv.get('oldok', kv['ok']) == '1',
                            ts=kv.get('ts', '1') == '1', tss=kv.get('tss', kv.get('ts', '1')) == '1', failed=kv.get('failed') == '1',
                            hit=kv.get('hit') == '1', exit=int(kv['exit']) if 'exit' in kv else None,
-                           oldres=kv.get('oldres'), sl=None if 'sl' not in kv else ([] if kv['sl'] == '-' else [m.names[int(x)] for x in kv['sl'].split('+')]),
+                           oldres=kv.get('oldres'), old2=old2, old2res=kv.get('old2res'), sl=None if 'sl' not in kv else ([] if kv['sl'] == '-' else [m.names[int(x)] for x in kv['sl'].split('+')]),
                            iok=kv.get('iok') == '1', irun=None if 'irun' not in kv else ([] if kv['irun'] == '-' else [m.order[int(x)] for x in kv['irun'].split('+')]),
                            eqi=kv.get('eqi') == '1',
                            res=kv.get('res'), acc=int(kv['acc']) if 'acc' in kv else None, bf=bf, bfok=kv.get('bfok') == '1', conf=kv.get('conf') == '1',
@@ -683,23 +684,6 @@ def through_phony(g, prod, i, depth=0):
         if depth > 60: return []
         return [x for j in p.exp + p.imp + p.oo for x in through_phony(g, prod, j, depth + 1)]
     return [p]
-
-def tainted_dyn(g, sources):
-    """(dyndep model only: ybuild_f RE-SCANS at a mid-build load)  positions of the real statements at or below a real statement
-    that is dirty in EVERY scan -- it reads an input-less phony name (directly or through phony aliases) or a missing source that
-    only a dyndep file names -- following non-order-only inputs, dyndep-added inputs and the binding to a dyndep file"""
-    mentioned = {p for e in g.edges for p in e.exp + e.imp + e.oo + e.outs}
-    ad = {x for e in g.edges for x in g.eff_imp(e) if x in g.sources and x not in sources and x not in mentioned}
-    for e in g.edges:
-        if e.phony and (not e.manifest_ins() or any(i in ad for i in e.exp + e.imp)): ad |= set(e.outs)
-    tn = set(); res = set()
-    for k, e in enumerate(g.edges):
-        nonoo = e.exp + g.eff_imp(e) + ([e.dyndep] if e.dyndep else [])
-        if any(i in tn for i in nonoo) or (not e.phony and any(i in ad for i in nonoo)):
-            tn |= set(g.eff_outs(e))
-            if not e.phony: res.add(k)
-        elif e.phony and any(i in tn for i in nonoo): tn |= set(e.outs)
-    return res
 
 def depends_on(g, f):
     """positions of the statements that depend on an output of statement f (transitively, inputs of every kind)"""
@@ -733,9 +717,8 @@ def compare_build(h, m, st, b, mb, prev_ok_same, nip, cnt, prev=None, flags=None
         # a dyndep file loaded mid-build made the re-scan fail (a missing input it names, a cycle): non-zero exit after commands ran
         if midfail and mb.get('res') == 'failed':
             # Builder::FinishCommand returns when Plan::EdgeFinished (the dyndep load) fails, BEFORE BuildLog::RecordCommand: the command
-            # that produced the dyndep file succeeded and is NOT recorded; the model has recorded it (reported).  Files are still
-            # compared for this build, the logs are not, and the history ends here.
-            cnt['builds that failed in a mid-build dyndep load, on both sides'] += 1; e_ok = True; flags['cut'] = True
+            # that produced the dyndep file succeeded and is NOT recorded; ybuild_ff does the same (run_unlogged): everything is compared
+            cnt['builds that failed in a mid-build dyndep load, on both sides'] += 1; e_ok = True
         else: bad.append(('midbuild-failure', 'engine: exit=%s "%s" after starting %s; model: %s' % (b.exit, (b.err or '')[:80], e_started, mb.get('res'))))
     if kind == 'kill':
         # the child's events died with it: acceptance is that of the reference run, the commands started are those the
@@ -769,11 +752,6 @@ def compare_build(h, m, st, b, mb, prev_ok_same, nip, cnt, prev=None, flags=None
     if len(set(e_run)) != len(e_run): bad.append(('run-set', 'engine started a command twice: %s' % e_started))
     if e_run != m_run:
         if kind == 'dry': bad.append(('dry-list', 'commands listed by -n: engine %s, model %s' % (nm(e_run), nm(m_run))))
-        elif m.dyn_mode and set(e_run) <= set(m_run) and (set(m_run) - set(e_run)) <= tainted_dyn(g, st.sources):
-            # DEVIATION of ybuild_f (reported): the re-scan at a mid-build dyndep load judges an always-dirty statement that has
-            # already run dirty AGAIN and re-wants what ninja's CleanNode cascade has pruned
-            cnt['builds where ybuild_f re-ran statements ninja pruned at or below an always-dirty one (deviation of the mid-build re-scan)'] += 1
-            cnt['... statements re-run by ybuild_f only'] += len(set(m_run) - set(e_run))
         else:
             bad.append(('run-set', 'commands %s: engine %s, model %s' % ('started' if kind == 'fault' else 'run', nm(e_run), nm(m_run))))
     # the model's order is the statement order; the engine's must respect the dependencies
@@ -825,7 +803,7 @@ def compare_build(h, m, st, b, mb, prev_ok_same, nip, cnt, prev=None, flags=None
         it = iter(mb['old'])
         if mb['what'] == 'B' and not m.dyn_mode and not all(x in it for x in mb['run']): bad.append(('selfcheck', 'model: build_f ran %s, no sub-sequence of what build runs %s' % (mb['run'], mb['old'])))
         if mb['old'] != mb['run']:
-            lab = {'B': 'HistDefs.build / dbuild / fbuild / ybuild', 'F': 'HistFailDefs.buildF_full', 'K': 'HistCrashDefs.buildK_full', 'I': 'HistCrashDefs.buildI_full'}[mb['what']]
+            lab = {'B': 'HistDyndepDefs.ybuild_f' if m.dyn_mode else 'HistDefs.build / dbuild / fbuild', 'F': 'HistFailKDefs.buildFK' if mb.get('bud') is not None else 'HistFailDefs.buildF_full', 'K': 'HistCrashDefs.buildK_full', 'I': 'HistCrashDefs.buildI_full'}[mb['what']]
             cnt['builds where the original loop (%s) differs from the CleanNode-faithful one (and from ninja)' % lab] += 1
             cnt['... statements the original loop alone would run'] += max(0, len(mb['old']) - len(mb['run']))
             if nip and not m.deps_mode and not m.dyn_mode: bad.append(('selfcheck', 'model: build_f and build differ with no_inputless_phony (build_f_eq_build): %s vs %s' % (mb['run'], mb['old'])))
@@ -868,12 +846,7 @@ def compare_build(h, m, st, b, mb, prev_ok_same, nip, cnt, prev=None, flags=None
     # per node
     try: exp = g.clean_contents(st.sources)
     except RecursionError: exp = None
-    drift_out = set()
-    if m.dyn_mode:
-        flags.setdefault('drift', set()).update(tainted_dyn(g, st.sources) if (set(m_run) - set(e_run)) else set())
-        drift_out = {o for k_ in flags['drift'] for o in g.eff_outs(g.edges[k_])}
     for n in m.names:
-        if n in drift_out: continue
         mx, mq = mb['nodes'][n][:2]
         ex = n in b.files
         if ex != mx: bad.append(('exists', '%s after the build: engine %s, model %s' % (n, 'exists' if ex else 'missing', 'exists' if mx else 'missing')))
@@ -885,7 +858,7 @@ def compare_build(h, m, st, b, mb, prev_ok_same, nip, cnt, prev=None, flags=None
     # recorded mtime against the output's own mtime and against every non-order-only input's; output against input
     sgn = lambda a, b: (a > b) - (a < b)
     for k, e in enumerate(g.edges):
-        if e.phony or (m.dyn_mode and (k in flags.get('drift', ()) or flags.get('cut'))): continue
+        if e.phony: continue
         sn = b.snap.get(e.out0)
         if sn and sn.get('hash'): m.known_hash[e.eval_command()] = int(sn['hash'], 16)
         cur = m.known_hash.get(e.eval_command())
@@ -961,6 +934,10 @@ def compare_build(h, m, st, b, mb, prev_ok_same, nip, cnt, prev=None, flags=None
         if unclean and flags['hro'] and flags['nru'] and flags['hp'] and nip:
             bad.append(('selfcheck', 'model: %s needed by the targets of an accepted build, all side conditions true: not clean (C10_equiv + C01_history)' % sorted(unclean)))
     if m.dyn_mode and kind == 'plain':
+        if mb['res'] == 'fuel': bad.append(('selfcheck', 'model: ybuild_ff ran out of fuel'))
+        if mb.get('old2') is not None and (sorted(mb['old2']) != sorted(mb['run']) or mb['old2res'] != mb['res']):
+            cnt['builds where HistDyndepDefs.ybuild differs from ybuild_ff (and from ninja)'] += 1
+        if mb.get('oldres') is not None and mb['oldres'] != mb['res']: cnt['builds where ybuild_f and ybuild_ff end differently (done / failed / refused)'] += 1
         prem = all(flags.get(k_, True) for k_ in ('frag', 'fragi', 'topo', 'ddo', 'nlr', 'hp')) and nip
         if mb['sl'] is not None:
             cnt['dyndep files loaded at scan time (model: scan_loads)'] += len(mb['sl'])
@@ -1098,7 +1075,6 @@ def compare_hists(hists, keep=None):
             st_['node comparisons'] += len(m.names)
             for kd, text in compare_build(h, m, st, b, mb, rep, r['nip'], st_, prev, flags, kind):
                 bad.append((kd, 'build %d: %s' % (k, text)))
-            if flags.get('cut'): st_['histories cut short after a mid-build dyndep load failure (the engine does not record the successful producer)'] += 1; break
             # the commands of a real build that follows a dry run of the same targets at once are among the listed ones
             # (C19_dry_superset; equality when nothing is pruned is C19_dry_difference_exact)
             if pending_dry is not None and kind == 'plain' and pending_dry[0] == h.steps.index(st) - 1 and pending_dry[1] == st.targets and mb['ok'] and b.exit == 0:
@@ -1192,7 +1168,7 @@ def hook(ctx, pid, dry=0.0, fault=False, deps=False, par=False, dyn=False, quick
         ctx.replay_file('hist-mismatch', x.replay)
     if len(mism) > 5: ctx.corr_broken.append('history model (HistDefs): %d more mismatching histories' % (len(mism) - 5))
     ctx.cov['hist_model_correspondence' + ('_parallel' if par else '') + ('_depfile' if deps == 'depfile' else '') + ('_keepgoing' if fault == 'k' else '') + ('_dyndep' if dyn else '')] = stats
-    extra = [k for k in stats if k.startswith(('dry runs', 'failing builds', 'commands listed', 'successful builds', '... where', 'histories whose statements', 'builds where the original', '... statements', 'keep-going', 'statements skipped', 'dyndep files', 'builds that failed in a mid', 'builds where ybuild_f', '... statements re-run by ybuild_f', 'histories cut short after', 'repeated builds that ran', 'builds with a statement re-run', 'builds where the inlined', 'histories with a produced', 'schedule', 'builds with at',
+    extra = [k for k in stats if k.startswith(('dry runs', 'failing builds', 'commands listed', 'successful builds', '... where', 'histories whose statements', 'builds where the original', '... statements', 'keep-going', 'statements skipped', 'dyndep files', 'builds that failed in a mid', 'builds where HistDyndepDefs', 'builds where ybuild_f and', 'repeated builds that ran', 'builds with a statement re-run', 'builds where the inlined', 'histories with a produced', 'schedule', 'builds with at',
                                                'deps records', 'inside, ', 'histories cut short', 'histories with a dep', 'histories mixing', 'depfiles', 'builds where fbuild', 'histories with rm-depfile'))]
     ctx.cov.setdefault('distribution', {})[key] = {k: stats.get(k, 0) for k in extra + [
         'histories', 'inside the fragment', 'outside the fragment (model verdict)',
